@@ -126,6 +126,7 @@ class World:
         self.snap = [self.observe(s) for s in self.streams]
         self.shared = {k: ast.parse(v["Select"]).body[0].value for k, v in BODIES.items()}
         self.shared_same = ast.parse(BODIES["any"]["SelectSame"]).body[0].value
+        self.shared_module = ast.parse(BODIES["any"]["SelectSame"])  # the Module-wrapped form ast.parse returns
         self.last = None  # details of the last execution
         self.track_twin = False
         self.twin = list(self.datasets)  # C16: the same derivations without any QMetaData
@@ -189,6 +190,9 @@ class World:
         if name == "SelectAstSame":
             # ONE user-held ast.Lambda object handed to streams of every kind
             return (lambda s: s.Select(self.shared_same)), ("Select", "ast-same"), False
+        if name == "SelectMod":
+            # ONE user-held ast.Module (what ast.parse returns) handed to streams of every kind
+            return (lambda s: s.Select(self.shared_module)), ("Select", "ast-module-same"), False
         if name == "SelectCall":
             return (lambda s: _sel_ev(s) if k == "Event" else _sel_any(s)), ("Select", "call"), False
         if name == "WhereCall":
@@ -225,7 +229,7 @@ class World:
             self.qmd[-1].update(d)
             if self.track_twin:
                 self.twin.append(self.twin[i])
-        elif name in ("Value", "ValueT", "ValueOv", "ValueAsync"):
+        elif name in ("Value", "ValueT", "ValueOv", "ValueAsync", "ValueMut"):
             before = self.observe(s)
             expected_ast = dump_without_empty_metadata(s.query_ast, self.ds_index)
             n0 = len(self.log)
@@ -236,6 +240,11 @@ class World:
                 async def override(a, title=None):
                     ov_log.append((a, title))
                     return ("ov", len(ov_log))
+            if name == "ValueMut":
+                async def override(a, title=None):
+                    # a back end that normalises the tree it is handed IN PLACE (as NodeTransformers do)
+                    scribble(a)
+                    return ("mut", 0)
             try:
                 if name == "ValueAsync":
                     co = s.value_async(title=title)
@@ -245,7 +254,7 @@ class World:
                         ret = ("pending",)
                     except StopIteration as e:
                         ret = ("ret", e.value)
-                elif name == "ValueOv":
+                elif name in ("ValueOv", "ValueMut"):
                     ret = ("ret", s.value(executor=override, title=title))
                 else:
                     ret = ("ret", s.value(title=title))
@@ -255,6 +264,29 @@ class World:
                              override=name == "ValueOv", ov_log=ov_log)
         else:
             raise ValueError(name)
+
+
+def scribble(a):
+    """edit every node of the tree in place: names and attribute names renamed, constants replaced, every
+    argument / keyword list emptied.  Whatever the tree shares with a stream's own AST shows up there."""
+    nodes = list(ast.walk(a))
+    for n in nodes:
+        if isinstance(n, ast.Name):
+            n.id = "SCRIBBLED"
+        elif isinstance(n, ast.Attribute):
+            n.attr = "scribbled"
+        elif isinstance(n, ast.Constant):
+            n.value = "scribbled"
+        elif isinstance(n, ast.arg):
+            n.arg = "scribbled"
+        elif isinstance(n, ast.keyword):
+            n.arg = "scribbled"
+    for n in nodes:
+        if isinstance(n, ast.Call):
+            del n.args[:]
+            del n.keywords[:]
+        elif isinstance(n, (ast.Tuple, ast.List)):
+            del n.elts[:]
 
 
 def is_empty_md(n):
@@ -336,6 +368,13 @@ def history_code(roots, hist):
             code = f"streams.append(streams[{i}].{meth}({BODIES[k][name]!r}))"
         elif name == "SelectAstSame":
             code = f"SAME = globals().get('SAME') or ast.parse({BODIES['any']['SelectSame']!r}).body[0].value\nstreams.append(streams[{i}].Select(SAME))"
+        elif name == "SelectMod":
+            code = f"MOD = globals().get('MOD') or ast.parse({BODIES['any']['SelectSame']!r})\nstreams.append(streams[{i}].Select(MOD))"
+        elif name == "ValueMut":
+            code = ("async def scribbler(a, title=None):\n    for n in list(ast.walk(a)):\n        if isinstance(n, ast.Name): n.id = 'SCRIBBLED'\n"
+                    "        if isinstance(n, ast.Attribute): n.attr = 'scribbled'\n        if isinstance(n, ast.Constant): n.value = 'scribbled'\n"
+                    "        if isinstance(n, ast.arg): n.arg = 'scribbled'\n        if isinstance(n, ast.Call): del n.args[:]; del n.keywords[:]\n"
+                    f"    return 'mut'\nprint('value ->', streams[{i}].value(executor=scribbler))")
         elif name == "SelectAst":
             code = f"streams.append(streams[{i}].Select(ast.parse({BODIES[k]['Select']!r}).body[0].value))  # the harness re-uses ONE ast object per kind"
         elif name in ("SelectCall", "WhereCall"):
